@@ -66,7 +66,7 @@ def render(n, kinds, edges, forms, layout=None):
                 out.append("@m.memento_function")
             elif kinds[i] == "E":
                 out.append("@m.memento_function(version='1')")
-            out.append("def n%d(x=1, hid=None, via=None, fnarg=None):" % i)
+            out.append("def n%d(x=1, hid=None, via=None, fnarg=None, then=None):" % i)
             out.append("    sys.audit('vf.body', 'n%d', x)" % i)
             succ = [j for (a_, j) in edges if a_ == i]
             if not succ:
@@ -80,9 +80,13 @@ def render(n, kinds, edges, forms, layout=None):
                 if forms[(i, j)] == "modattr-local" and layout[j] == mod:
                     # the result goes to a local variable named like the last component of the dotted reference
                     out.append("        n%d_alias = %s" % (j, call_expr("selfmod.n%d_alias" % j, "bare")))
-                    out.append("        return ['n%d', n%d_alias]" % (i, j))
+                    out.append("        r = ['n%d', n%d_alias]" % (i, j))
                 else:
-                    out.append("        return ['n%d', %s]" % (i, call_expr(e, forms[(i, j)])))
+                    out.append("        r = ['n%d', %s]" % (i, call_expr(e, forms[(i, j)])))
+                # ... and afterwards, possibly, a hidden call of its own
+                out.append("        if then is not None:")
+                out.append("            r.append(getattr(importlib.import_module(then[0]), then[1])(0))")
+                out.append("        return r")
             out.append("    if via is None and hid is not None:")
             out.append("        return ['n%d', getattr(importlib.import_module(hid[0]), hid[1])(0)]" % i)
             out.append("    if via is None and fnarg is not None:")
@@ -177,6 +181,10 @@ def _child(root, store, n, kinds, edges, layout=None):
                     continue
                 calls.append((u, w, v, "hid", None))
                 calls.append((u, w, v, "hid", "force_local"))
+                # the callee makes the hidden call, then the caller makes the same hidden call itself (twice: the second
+                # time the callee is served from the store)
+                calls.append((u, w, v, "hid+then", None))
+                calls.append((u, w, v, "hid+then", "again"))
     runtime = []
     for (u, w, v, how, modifier) in calls:
         f = node(u)
@@ -191,13 +199,15 @@ def _child(root, store, n, kinds, edges, layout=None):
         kw = {}
         if w is not None:
             kw["via"] = "n%d" % w
-        if how == "hid":
+        if how in ("hid", "hid+then"):
             kw["hid"] = [MODNAME[layout[v]], "n%d" % v]
+            if how == "hid+then":
+                kw["then"] = kw["hid"]
         else:
             kw["fnarg"] = node(v)
         try:
             # a distinct argument per way of invoking: every call is computed, none replayed
-            f(10 + [None, "partial", "force_local", "ctx", "ignore"].index(modifier), **kw)
+            f(20 if how == "hid+then" else 10 + [None, "partial", "force_local", "ctx", "ignore"].index(modifier), **kw)
             out = "ok"
         except UndeclaredDependencyError:
             out = "refused"
@@ -259,16 +269,21 @@ def graph_case(args):
                 want = "ok"
             else:
                 want = "ok" if (v in exp[caller][0] or v == caller) else "refused"
+            if how == "hid+then" and want == "ok" and kinds[u] != "E":
+                # the caller's own hidden call is judged by the caller's closure, whatever its callees reached before
+                want = "ok" if (v in exp[u][0] or v == u) else "refused"
             if got != want:
                 sig = "runtime|%s|want=%s|got=%s|caller=%s%s%s" % (how, want, got.split(":")[0] + (":" + got.split(":")[1] if got.startswith("exc") else ""),
                                                                  kinds[caller], "|via=" + modifier if modifier else "",
                                                                  "|nested" if w is not None else "")
+                if how == "hid+then":
+                    sig += "|after-callee-made-the-same-call"
                 if v == u and w is not None:
                     sig += "|callee-on-stack"
                 if layout:
                     sig += "|layout"
                 out["violations"].append((sig, "n%d%s %s-calling n%d%s: got %s, expected %s\n%s"
-                                          % (u, " (via static call to n%d)" % w if w is not None else "", "hidden" if how == "hid" else "argument",
+                                          % (u, " (via static call to n%d)" % w if w is not None else "", "hidden" if how.startswith("hid") else "argument",
                                              v, " invoked through %s" % modifier if modifier else "", got, want, desc), art))
                 break
         out["outcomes"].append("%s|%s" % (kinds, sorted(edges)))
